@@ -356,7 +356,7 @@ theorem reth_exec (m : M) (op : Op) (g : Good roots m) (hwf : wfOp roots op) (hR
   | whenAll ps =>
     simp only [exec]
     have R1 : RethOK (m.newCore {}).1.cores := reth_newCore g.own.c {} rfl hR
-    refine reth_settleDown _ (good_combinator g ps.length _ ?_).own R1
+    refine reth_settleDown _ (good_combinator g ps.length _ _ _ ?_).own R1
     intro a ha
     simp only [List.mem_map] at ha
     obtain ⟨pi, _, rfl⟩ := ha
@@ -364,7 +364,7 @@ theorem reth_exec (m : M) (op : Op) (g : Good roots m) (hwf : wfOp roots op) (hR
   | whenAny ps =>
     simp only [exec]
     have R1 : RethOK (m.newCore {}).1.cores := reth_newCore g.own.c {} rfl hR
-    refine reth_settleDown _ (good_combinator g ps.length _ ?_).own R1
+    refine reth_settleDown _ (good_combinator g ps.length _ _ _ ?_).own R1
     intro a ha
     simp only [List.mem_map] at ha
     obtain ⟨pi, _, rfl⟩ := ha
